@@ -265,13 +265,13 @@ func calculateAmountCostLen(posting *ast.Posting, commodityFormats map[string]Nu
 	length := 0
 
 	if posting.Amount.Commodity.Position == ast.CommodityLeft {
-		length += utf8.RuneCountInString(posting.Amount.Commodity.Symbol)
+		length += utf8.RuneCountInString(quoteCommodity(posting.Amount.Commodity.Symbol))
 	}
 
 	length += utf8.RuneCountInString(formatAmountQuantity(posting.Amount, commodityFormats))
 
 	if posting.Amount.Commodity.Position == ast.CommodityRight {
-		length += 1 + utf8.RuneCountInString(posting.Amount.Commodity.Symbol)
+		length += 1 + utf8.RuneCountInString(quoteCommodity(posting.Amount.Commodity.Symbol))
 	}
 
 	if posting.Cost != nil {
@@ -281,11 +281,11 @@ func calculateAmountCostLen(posting *ast.Posting, commodityFormats map[string]Nu
 			length += 3 // " @ "
 		}
 		if posting.Cost.Amount.Commodity.Position == ast.CommodityLeft {
-			length += utf8.RuneCountInString(posting.Cost.Amount.Commodity.Symbol)
+			length += utf8.RuneCountInString(quoteCommodity(posting.Cost.Amount.Commodity.Symbol))
 		}
 		length += utf8.RuneCountInString(formatAmountQuantity(&posting.Cost.Amount, commodityFormats))
 		if posting.Cost.Amount.Commodity.Position == ast.CommodityRight {
-			length += 1 + utf8.RuneCountInString(posting.Cost.Amount.Commodity.Symbol)
+			length += 1 + utf8.RuneCountInString(quoteCommodity(posting.Cost.Amount.Commodity.Symbol))
 		}
 	}
 
@@ -376,22 +376,34 @@ func formatPostingWithOpts(posting *ast.Posting, alignment AlignmentInfo, commod
 func writeAmountWithSign(sb *strings.Builder, amount *ast.Amount, commodityFormats map[string]NumberFormat) {
 	qty := formatAmountQuantity(amount, commodityFormats)
 
+	symbol := quoteCommodity(amount.Commodity.Symbol)
+
 	if amount.Commodity.Position == ast.CommodityLeft {
 		if amount.SignBeforeCommodity && len(qty) > 0 && (qty[0] == '-' || qty[0] == '+') {
 			sb.WriteByte(qty[0])
-			sb.WriteString(amount.Commodity.Symbol)
+			sb.WriteString(symbol)
 			sb.WriteString(qty[1:])
 		} else {
-			sb.WriteString(amount.Commodity.Symbol)
+			sb.WriteString(symbol)
 			sb.WriteString(qty)
 		}
 	} else {
 		sb.WriteString(qty)
-		if amount.Commodity.Symbol != "" {
+		if symbol != "" {
 			sb.WriteString(" ")
-			sb.WriteString(amount.Commodity.Symbol)
+			sb.WriteString(symbol)
 		}
 	}
+}
+
+// quoteCommodity returns the symbol as it has to be written in a journal: a symbol that
+// contains digits, blanks or number and operator characters is only read back as one
+// commodity when it is enclosed in double quotes.
+func quoteCommodity(symbol string) string {
+	if strings.ContainsAny(symbol, " \t0123456789-+.,@*;=(){}[]") && !strings.Contains(symbol, `"`) {
+		return `"` + symbol + `"`
+	}
+	return symbol
 }
 
 // formatAmountQuantity returns formatted quantity string.
